@@ -44,7 +44,7 @@ def eval_c01(ctx, tr, finished):
                 ctx.check('C01.once', n == 1, bus=bus, ev=lab, handler=name, n=n)
     acc = set(tr.accepted())
     for r in tr.E:
-        ok = r.name in ctx.expected(r.bus, r.ev) and (r.bus, r.ev) in acc
+        ok = r.name in ctx.may_run(r.bus, r.ev) and (r.bus, r.ev) in acc
         ctx.check('C01.none_extra', ok, bus=r.bus, ev=r.ev, handler=r.name)
     if not ctx.cfg.get('rejections_expected'):
         ctx.check('C01.accepted', not tr.DX, dx=[(r.bus, r.ev, r.exc) for r in tr.DX])
